@@ -17,26 +17,26 @@ package safemap
 //@   modifies
 //@   ensures[C08.safemap.new] result != nil && fresh(result) && result.data != nil && len(result.data) == 0
 
-//@ func (*SafeMap).Set(k, v)
+//@ func (s *SafeMap).Set(k, v)
 //@   props C08
 //@   requires s != nil
 //@   modifies mapof(s.data)
 //@   atunlock[C08.safemap.set] has(s.data, k) && s.data[k] == v
 //@   atunlock[C08.safemap.set-others-unchanged] forallS("TP$K", q, q != k ==> has(s.data, q) == old(has(s.data, q)) && s.data[q] == old(s.data[q]))
 
-//@ func (*SafeMap).Get(k)
+//@ func (s *SafeMap).Get(k)
 //@   props C08
 //@   requires s != nil
 //@   modifies
 //@   ensures[C08.safemap.get] result1 == old(has(s.data, k)) && (result1 ==> result0 == old(s.data[k]))
 
-//@ func (*SafeMap).Delete(k)
+//@ func (s *SafeMap).Delete(k)
 //@   props C08
 //@   requires s != nil
 //@   modifies mapof(s.data)
 //@   atunlock[C08.safemap.delete] !has(s.data, k) && forallS("TP$K", q, q != k ==> has(s.data, q) == old(has(s.data, q)) && s.data[q] == old(s.data[q]))
 
-//@ func (*SafeMap).Len()
+//@ func (s *SafeMap).Len()
 //@   props C08
 //@   requires s != nil
 //@   modifies
